@@ -205,6 +205,21 @@ def library_input(cfg, values):
         raise ValueError(rep)
     Hd = {z: h0, **{tuple(o): conv(m) for o, m in values.items()}}
     kwargs = dict(subspace_indices=block_of(cfg["sizes"]), hermitian=cfg["hermitian"])
+    if cfg.get("basis") == "RL":
+        # the same problem written in a non-orthogonal basis: H -> T H T^-1 with a unimodular
+        # integer T, handed over with explicit biorthogonal (R, L) subspace pairs
+        T, Ti = unimodular(N)
+        off = offsets(cfg["sizes"])
+        e0 = np.diag(np.array([complex(e[0], e[1]) for e in E]))
+        full = {z: T @ e0 @ Ti, **{tuple(o): T @ np.array(m, dtype=complex) @ Ti for o, m in values.items()}}
+        if rep == "sympy":
+            toS = lambda m: sympy.Matrix(N, N, lambda i, j: sympy.Integer(round(m[i, j].real)) + sympy.I * sympy.Integer(round(m[i, j].imag)))  # noqa: E731
+            Hd = {o: toS(m) for o, m in full.items()}
+            pairs = tuple((toS(T)[:, off[b] : off[b + 1]], toS(Ti.conj().T)[:, off[b] : off[b + 1]]) for b in range(len(cfg["sizes"])))
+        else:
+            Hd = {o: (sparse.csr_array(m) if rep == "csr" else m) for o, m in full.items()}
+            pairs = tuple((T[:, off[b] : off[b + 1]].astype(complex), Ti.conj().T[:, off[b] : off[b + 1]].astype(complex)) for b in range(len(cfg["sizes"])))
+        kwargs = dict(subspace_eigenvectors=pairs, hermitian=cfg["hermitian"])
     if len(cfg["sizes"]) == 1 and cfg.get("no_indices"):
         kwargs.pop("subspace_indices")
     if cfg.get("mask") is not None:
@@ -216,6 +231,16 @@ def library_input(cfg, values):
     elif cfg.get("fd"):
         kwargs["fully_diagonalize"] = tuple(cfg["fd"])
     return Hd, kwargs
+
+
+def unimodular(N):
+    """A fixed integer matrix with determinant 1 and its (integer) inverse."""
+    U = np.eye(N) + np.triu(np.ones((N, N)), 1)
+    Lo = np.eye(N) + np.tril(np.ones((N, N)), -1) * 2
+    T = U @ Lo
+    Ti = np.round(np.linalg.inv(T))
+    assert np.allclose(T @ Ti, np.eye(N))
+    return T, Ti
 
 
 def block_to_np(v, shape):
